@@ -2,11 +2,11 @@ SPECIFICATION Spec
 CONSTANTS
   Sess = {1}
   Reps = {"v", "a"}
-  Clients = {"c1", "c2"}
+  Clients = {"c1"}
   NSeg = 2
   Extra = 1
   First = 5
-  Scripts <- Scripts2x21
+  Scripts <- Scripts1x4
   ErrSets <- OneErr
   StepGuard = FALSE
 INVARIANTS InitFirst Consecutive StepLower StepUpper DeleteStops Delivered StuckOnlyAfterStop
